@@ -75,6 +75,8 @@ WORLDS = {
     # a registered function is redefined and registered again under the same name while another registered function calls it
     'redef': dict(cfg={'p': 2, 'q': 0, 'r': 0}, wrapper=False, redef=True),
     'redef+w': dict(cfg={'p': 2, 'q': 0, 'r': 0}, wrapper=True, redef=True),
+    # d = 7: the blade table is filled lazily, so it is part of the history dependent state
+    'lazy7': dict(cfg={'p': 6, 'q': 0, 'r': 1}, wrapper=False, lazy=True),
 }
 PERMS = [(1, 2, 17), (1, 17, 2), (2, 1, 17), (2, 17, 1), (17, 1, 2), (17, 2, 1)]
 
@@ -86,6 +88,14 @@ def make_world(world_id):
     alg = Algebra(cfg['p'], cfg['q'], cfg['r'], wrapper=Tag if w['wrapper'] else None)
     other = Algebra(cfg['p'] + 1, cfg['q'], cfg['r'])
     mv = lambda keys, vals: alg.multivector(keys=tuple(keys), values=[F(v) for v in vals])
+    if w.get('lazy'):
+        ctx = dict(alg=alg, other=other, a=mv((2, 4), (3, 5)), B=mv((6, 10, 3), (2, -1, 4)), e=mv((2,), (1,)), E=mv((6,), (1,)), T=mv((14, 7), (1, 2)))
+
+        def f(a, b):
+            return a * b + a
+        ctx['f'] = alg.register(f)
+        ctx['_operands'] = ['a', 'B', 'e', 'E', 'T']
+        return ctx
     if w.get('perm'):
         val = {1: 3, 2: 5, 17: 7}
         ctx = dict(alg=alg, other=other, e=mv((3,), (1,)))
@@ -196,6 +206,11 @@ def expected(name, ctx, fresh):
 for _i in range(6):
     SYMBOLS[f'pg{_i}'] = (lambda i: lambda c: c[f'q{i}'] * c['e'])(_i)
     SYMBOLS[f'pf{_i}'] = (lambda i: lambda c: c['f'](c[f'q{i}'], c['e']))(_i)
+SYMBOLS.update({
+    'l_aB': lambda c: c['a'] * c['B'], 'l_Ba': lambda c: c['B'] * c['a'], 'l_eE': lambda c: c['e'] * c['E'], 'l_Ee': lambda c: c['E'] * c['e'],
+    'l_ipaT': lambda c: c['a'] | c['T'], 'l_ipTa': lambda c: c['T'] | c['a'], 'l_swB': lambda c: c['B'] >> c['a'], 'l_f': lambda c: c['f'](c['T'], c['a']),
+})
+LAZY_ALPHA = ['l_aB', 'l_Ba', 'l_eE', 'l_Ee', 'l_ipaT', 'l_ipTa', 'l_swB', 'l_f']
 PERM_ALPHA = [f'pg{i}' for i in range(6)] + ['pf2', 'pf3']
 QUICK = ['gp1', 'gp2', 'gp5', 'sw2', 'inv5', 'f2', 'sq5', 'div0']
 THOROUGH = QUICK + ['g2', 'hs2', 'call2', 'add2', 'mix']
@@ -209,6 +224,8 @@ def alphabet(world_id):
         return {n: SYMBOLS[n] for n in PERM_ALPHA}
     if WORLDS[_wid(world_id)].get('redef'):
         return {n: SYMBOLS[n] for n in REDEF_ALPHA}
+    if WORLDS[_wid(world_id)].get('lazy'):
+        return {n: SYMBOLS[n] for n in LAZY_ALPHA}
     return {n: SYMBOLS[n] for n in _ALPHA[tier]}
 
 
@@ -257,7 +274,8 @@ def abstraction(ctx):
             ents.append((nm, kin, tuple(kout), code_digest(fn)))
     ns = [(k, code_digest(v)) for k, v in alg.numspace.items() if k != '__builtins__']
     cached = [(n, code_digest(ctx[n].__dict__['_callable'][1])) for n in ctx['_operands'] if '_callable' in ctx[n].__dict__]
-    return (tuple(sorted(ents)), tuple(sorted(ns)), tuple(sorted(cached)), code_digest(ctx['f_py']) if 'f_py' in ctx else '')
+    lazy = tuple(sorted(alg.signs.items())) if alg.d > 6 else ()
+    return (tuple(sorted(ents)), tuple(sorted(ns)), tuple(sorted(cached)), code_digest(ctx['f_py']) if 'f_py' in ctx else '', lazy)
 
 
 def explore_expand(task):
@@ -288,6 +306,9 @@ def reference_check(world_id):
         'sq5': lambda: ref.gp(R('x5'), R('x5')), 'add2': lambda: Ref.add(R('x2'), R('e')), 'neg2': lambda: Ref.neg(R('x2')),
         'call2': lambda: ref.gp(R('x2'), R('e')), 'call1': lambda: ref.gp(R('x1'), R('e')),
     }
+    want.update({'l_aB': lambda: ref.gp(R('a'), R('B')), 'l_Ba': lambda: ref.gp(R('B'), R('a')), 'l_eE': lambda: ref.gp(R('e'), R('E')), 'l_Ee': lambda: ref.gp(R('E'), R('e')),
+                 'l_ipaT': lambda: ref.ip(R('a'), R('T')), 'l_ipTa': lambda: ref.ip(R('T'), R('a')), 'l_swB': lambda: ref.sw(R('B'), R('a')),
+                 'l_f': lambda: Ref.add(ref.gp(R('T'), R('a')), R('T'))})
     for i in range(6):
         want[f'pg{i}'] = (lambda i: lambda: ref.gp(R(f'q{i}'), R('e')))(i)
         want[f'pf{i}'] = (lambda i: lambda: Ref.add(ref.gp(R(f'q{i}'), R('e')), R(f'q{i}')))(i)
@@ -374,7 +395,7 @@ def drive(ctx):
     # BFS over the large alphabet with whatever time is left (it stops at a level boundary and reports the cap)
     worlds = [f'{w}|quick' for w in WORLDS]
     if tier == 'thorough':
-        worlds += ['THREADS'] + [f'{w}|thorough' for w in WORLDS if not WORLDS[w].get('perm') and not WORLDS[w].get('redef')]
+        worlds += ['THREADS'] + [f'{w}|thorough' for w in WORLDS if not WORLDS[w].get('perm') and not WORLDS[w].get('redef') and not WORLDS[w].get('lazy')]
     samples = []
     threads_done = False
     for world_id in worlds:
